@@ -90,7 +90,7 @@ def bulk_job(arg):
                 st.store_blob(k, "val:" + p, None)
                 m[dp] = k
                 attempted[k] = p
-            pre = SM.walk(root) if kind in ("local", "local_lru") else None
+            pre = SM.walk(root) if kind in ("local", "local_lru", "local_linked") else None
             try:
                 st.sync_paths(m)
                 for p, dp in chunk:
@@ -140,16 +140,17 @@ def bulk_job(arg):
                 if v != "val:" + p:
                     rep.violate("%s: blob of %r fetched as %r" % (kind, p, v), {"kind": kind, "path": p}, mechanism="blob-roundtrip")
         # containment
-        if kind in ("local", "local_lru"):
+        if kind in ("local", "local_lru", "local_linked"):
             after = SM.walk(root)
             dreal = os.path.realpath(os.path.join(root, "data"))
+            ireal = os.path.realpath(os.path.join(root, "internal"))
             for rel in after:
                 if rel in before:
                     continue
                 rp = os.path.join(os.path.realpath(root), rel)
                 par = os.path.realpath(os.path.dirname(rp))
                 inside_data = (par + "/").startswith(dreal + "/") or par == dreal
-                inside_internal = rel.startswith("internal")
+                inside_internal = rel.startswith("internal") or (par + "/").startswith(ireal + "/") or par == ireal
                 rep.count("entries_checked_for_containment")
                 if not (inside_data or inside_internal):
                     rep.violate("local store created %r outside the data and internal directories" % rel, {"kind": kind, "entry": rel, "set": set_name}, mechanism="dotdot-segment" if True else None, features={"escape": True})
